@@ -38,6 +38,10 @@ def case_stats(case):
     if ref0["penalty"].size - n_free - ref0["number_of_clps"] <= 0:
         return core.ood("no-degrees-of-freedom")
     scheme = S.build_scheme(spec, optimization_method=case["method"], maximum_number_function_evaluations=case["nfev"])
+    if case.get("nonneg"):
+        for p in scheme.parameters.all():
+            if p.label.startswith("rate."):
+                p.non_negative = True
     with warnings.catch_warnings():
         warnings.simplefilter("ignore")
         try:
@@ -134,9 +138,12 @@ def case_stats(case):
         for j, L in enumerate(res.free_parameter_labels):
             p = res.optimized_parameters.get(L)
             want = rmse * math.sqrt(max(C[j, j], 0.0))
+            if p.non_negative:  # mapped back from log space
+                lv = math.log(p.value + (1e-10 if p.value == 1 else 0.0))
+                want = p.value * (math.exp(want) - 1.0) if want < abs(lv) else abs(p.value)
             if rel(float(p.standard_error), want) > 1e-9 and not (want == 0 and float(p.standard_error) == 0):
                 vs.append(V("standard-error-not-rmse-sqrt-diag", label=L, got=float(p.standard_error), want=want))
-    key = [case["opts"], case["method"], case["nfev"]]
+    key = [case["opts"], case["method"], case["nfev"], bool(case.get("nonneg"))]
     return core.ok(key=key, outcome=[int(res.number_of_clps), n_pen, res.success], violations=vs)
 
 
@@ -153,6 +160,8 @@ def run(run: core.Run):
             ("TrustRegionReflection", 1), ("TrustRegionReflection", 5), ("TrustRegionReflection", None),
             ("Dogbox", 5), ("Levenberg-Marquardt", 5), ("Levenberg-Marquardt", None)):  # fmt: skip
             cases.append({"opts": o, "method": method, "nfev": nfev, "seed": run.seed})
+            if len(o) <= 1:
+                cases.append({"opts": o, "method": method, "nfev": nfev, "seed": run.seed, "nonneg": True})
     run.map("stats", cases)
     run.bounds = {"t_way": 2 if quick else 3, "axes": axes, "methods": 3, "max_nfev": [1, 3, 6] if quick else [1, 5, None]}
     run.rule = (
@@ -162,4 +171,4 @@ def run(run: core.Run):
         "independent reference), dof / reduced chi2 / RMSE formulae, per-dataset RMSEs, covariance symmetric PSD "
         "pseudo-inverse of J^T J, standard errors. distinct_nontrivial = distinct (scheme, method, nfev) with a successful fit"
     )
-    run.assumptions = ["non-negative parameters' standard errors are covered by C11", "harness megacomplexes, tiny axes"]
+    run.assumptions = ["harness megacomplexes, tiny axes"]
